@@ -278,6 +278,7 @@ def queryStep (st : QuerySt) (toks : List String) : QuerySt × String :=
            s!"{if reached then "ok" else "gone"} {idHex k}")
     | none, some _ => (st, "none")
     | _, _ => (st, "bad-op")
+  | ["qpsleep", _] => (st, "ok")   -- real time passes on the implementation side only
   | ["qppoll", now, cap] =>
     match st.pool, num? now, num? cap with
     | some p, some now, some cap =>
